@@ -33,11 +33,44 @@ def redactor_of(r):
     raise TypeError(r)
 
 
+# The redactor an alias's validator object ends up with in the generated Python. `alias X = Y` (Y an alias, not wrapped
+# in Nullable / List / Map) makes `X_validator` the SAME object as `Y_validator`, and `X_validator._redact = ...` is an
+# assignment on that object: a redactor declared on X also reaches Y and everything typed Y (and replaces Y's own).
+# This is over-redaction - no property speaks about it (C13 forbids leaks, not masks) - but it is what the code does, so
+# the model is given it. Keyed by id() of the stone.ir.Alias object; filled by prepare(api).
+_EFFECTIVE_REDACTOR = {}
+
+
+def prepare(api):
+    shared = {}      # id(alias) -> id(alias whose definition created the validator object)
+    red = {}         # id(creating alias) -> redactor last assigned to the object
+    keep = []
+    for name in sorted(api.namespaces):
+        ns = api.namespaces[name]
+        for a in ns.linearize_aliases():
+            keep.append(a)
+            if isinstance(a.data_type, Alias):
+                shared[id(a)] = shared.get(id(a.data_type), id(a.data_type))
+            else:
+                shared[id(a)] = id(a)
+            if a.redactor is not None:
+                red[shared[id(a)]] = a.redactor
+    for a in keep:
+        _EFFECTIVE_REDACTOR[id(a)] = (a, red.get(shared[id(a)]))
+
+
+def effective_redactor(alias):
+    hit = _EFFECTIVE_REDACTOR.get(id(alias))
+    if hit is not None and hit[0] is alias:
+        return hit[1]
+    return alias.redactor
+
+
 def ir_ty(t):
     if isinstance(t, Nullable):
         return ['Nullable', ir_ty(t.data_type)]
     if isinstance(t, Alias):
-        return ['Alias', ref_of(t), redactor_of(t.redactor), ir_ty(t.data_type)]
+        return ['Alias', ref_of(t), redactor_of(effective_redactor(t)), ir_ty(t.data_type)]
     if isinstance(t, List):
         return ['List', ir_ty(t.data_type), t.min_items, t.max_items]
     if isinstance(t, Map):
@@ -116,6 +149,7 @@ def field_of(f):
 
 
 def env_of(api):
+    prepare(api)
     structs, unions = [], []
     for ns in api.namespaces.values():
         for dt in ns.data_types:
